@@ -251,6 +251,13 @@ func buildSkeleton(w *witness) *built {
 		g.AddTarget(t)
 		p.AddTarget(t)
 	}
+	// every package also exists, empty, under the same name in a few subrepos (as a subrepo's root package shadows the host's):
+	// packages are identified by subrepo AND name, so this must change nothing
+	for name := range b.pkgs {
+		for i := 0; i < 8; i++ {
+			g.AddPackage(core.NewPackageSubrepo(name, fmt.Sprintf("s%d", i)))
+		}
+	}
 	for _, e := range w.Edges {
 		b.ts[e[0]].AddDependency(b.labels[e[1]])
 	}
@@ -1036,7 +1043,7 @@ func main() {
 		"needed = closure of the roots under declared dependencies and the dependencies they resolve to through require/provide",
 		"proposing to remove a visible rule x removes its hidden sub-targets `_x#t` with it (they are generated by the same BUILD statement, and gc never lists hidden targets separately)",
 		"a proposed source deletion conflicts with a needed target if it is, contains, or lies inside a file or directory the target lists in srcs or data; 'kept' is read narrowly as 'needed' (targets that are merely not proposed, e.g. outside a filter, are not protected)",
-		"tests are binary and test_only (as build_rule sets them); hidden sub-targets are plain libraries; filters, gc_sibling labels and subrepos are not exercised",
+		"tests are binary and test_only (as build_rule sets them); hidden sub-targets are plain libraries; filters and gc_sibling labels are not exercised; subrepos only as empty packages that share the names of the host packages",
 	}
 	r.Finish(lib.Coverage{
 		Evaluations:        int(cnt.evals),
